@@ -18,7 +18,13 @@ Section POSTSPEC.
   Definition covers (e : pentry V) (i : Z) : bool :=
     Z.leb (Z.quot (win_start e - from) step) i && Z.leb i (Z.quot (win_start e + d - from) step).
   (* the slot after the rows of `run`, starting from the slot function g *)
-  Definition slot_upd (g : Z -> V) (e : pentry V) : Z -> V := fun i => if covers e i then pe_val e else g i.
+  (* = fun i => if covers e i then pe_val e else g i (lemma slot_upd_eq); the bounds are bound outside the function so
+     that an evaluation computes them once per row, not once per slot *)
+  Definition slot_upd (g : Z -> V) (e : pentry V) : Z -> V :=
+    let i0 := Z.quot (win_start e - from) step in
+    let i1 := Z.quot (win_start e + d - from) step in
+    let v := pe_val e in
+    fun i => if Z.leb i0 i && Z.leb i i1 then v else g i.
   Definition slot_val (g : Z -> V) (run : list (pentry V)) : Z -> V := fold_left slot_upd run g.
 
   (* maximal runs of equal fingerprints *)
@@ -37,3 +43,13 @@ Section POSTSPEC.
   Definition fix_period_spec (to : Z) (batches : list (list (pentry V))) : list (list (pentry V)) :=
     flat_map (export_run (Z.quot (to - from) step + 1)) (runs (List.concat batches)).
 End POSTSPEC.
+
+(* specification oracle on the OBSERVED output of FixPeriodPlanner: it must be the specified matrix, batch by batch
+   (fix_period_spec is total and equals the transcription fix_period - theorem fix_period_equals_spec - so a
+   disagreement is a violation of the specification on the recorded rows, not only a model mismatch) *)
+Definition pcase_spec2_bad (c : pcase) : bool :=
+  negb (pc_zero c) &&
+  negb (list_eqb (list_eqb pe_eqb)
+          (fix_period_spec (Z.eqb 0) 0 (pc_from c) (pc_step c) (pc_dur c) (pc_to c) (map (map pe_of) (pc_in c)))
+          (map (map pe_of) (pc_out c))).
+Definition post_spec2_violations (cs : list pcase) : list Z := map pc_id (filter pcase_spec2_bad cs).
